@@ -478,9 +478,11 @@ class C13(Oracle):
         probs = info["p"]
         k = 0
         for h in range(1, self.sd + 1):
-            layer = nl[h]
+            layer = nl[h] if h < len(nl) else []
             if len(layer) != 2 ** h:
-                raise HarnessError("C13: depth %d has %d cells (binary-child partitions only)" % (h, len(layer)))
+                # binary-child partitions only (the check's generator guarantees it): the ranked depths are 1..floor(log2 n)
+                ctx.fail("C13", "rank-permutation", "depth %d of the ranking range 1..floor(log2 %d)=%d holds %d cells, not 2^%d" % (
+                    h, self.n, self.sd, len(layer), h))
             ranks = [x.get_rank()[-1] for x in layer]
             if sorted(ranks) != list(range(1, 2 ** h + 1)):
                 ctx.fail("C13", "rank-permutation", "ranks at depth %d are not a permutation of 1..%d" % (h, 2 ** h))
@@ -500,6 +502,8 @@ class C13(Oracle):
         if abs(math.fsum(probs) - 1.0) > 1e-9:
             ctx.fail("C13", "normalisation", "probabilities sum to %r" % math.fsum(probs))
         drawn = info["drawn"]
+        if drawn is None:
+            ctx.fail("C13", "probability", "the draw is not over the cells of depths 1..%d: %s" % (self.sd, info.get("error")))
         if not isinstance(p, list) or not contains(drawn, p):
             ctx.fail("C13", "point-outside-drawn-cell", "returned point does not lie in the drawn cell (depth %d)" % drawn.get_depth())
         if drawn.get_depth() > self.hcap:
